@@ -134,6 +134,9 @@ def plan_c04(tier, seed):
         add("g8g", 2, 1, 1); add("g8g", 3, 1, 2)
         # a partial run whose closure passes through a parameter connection two levels deep (ps -> pp -> p.a)
         add("g8c", 2, 1, 2, runto=["p"], id="C04-g8c-i2-m2-runto-p"); add("g8b", 2, 1, 1, runto=["p"], id="C04-g8b-i2-m1-runto-p")
+        # ... and a parameter source that ALSO feeds a process outside the run set (more values than the buffer holds)
+        add("g8f", 2, 1, 2, runto=["p"], id="C04-g8f-i2-m2-runto-p"); add("g4", 3, 1, 2, runto=["q"], id="C04-g4-i3-m2-runto-q")
+        add("g8j", 2, 1, 2, runto=["gen"], id="C04-g8j-i2-m2-runto-gen"); add("g8j", 2, 1, 2, runto=["gen2"], id="C04-g8j-i2-m2-runto-gen2"); add("g8j", 2, 1, 1)
         add("g7c", 2, 1, 1); add("g7c", 2, 1, 2)   # a dead-end out-port beside the driver's feed, stream longer than the buffer
         add("g6b", 2, 1, 2, rev_src=True, id="C04-g6b-i2-m2-reverse-name-order")   # pairing follows arrival order, not name order
         add("g6", 1, 1, 1)
@@ -231,6 +234,8 @@ def plan_c05(tier, seed):
         add("g3", 1, 1, 1, runto=["p"], id="C05-g3-runto-p")
         add("g8f", 2, 1, 2, runto=["p"], id="C05-g8f-runto-p")  # a parameter source that also feeds a process outside the run set
         add("g11", 1, 1, 1, runto=["last"], id="C05-g11-runto-last")
+        # a fan-out of which RunTo keeps ONE consumer: the other connection must be cut (stream longer than the buffer)
+        add("g4", 3, 1, 2, runto=["q"], id="C05-g4-i3-runto-q"); add("g4", 3, 1, 2, runto=["r"], id="C05-g4-i3-runto-r")
     else:
         for g in ("g1", "g2", "g3", "g4", "g5", "g6", "g7", "g8", "g8g", "g9", "g10", "g10b", "g11", "g12"):
             for i in (0, 1, 2, 3):
@@ -273,7 +278,7 @@ def plan_c05(tier, seed):
                 jobs.append(nj)
         return jobs
     iof = opfault_stages("C05", ["nohang", "c05", "c04"], tier, [("g3", 1, 1, "cmd", ""), ("g3", 1, 1, "func", ""), ("g7", 1, 1, "cmd", ""), ("g2", 1, 1, "cmd", "subdir"), ("g11", 1, 1, "cmd", "")] + ([] if tier == "quick" else [("g4", 1, 2, "cmd", ""), ("g14a", 1, 1, "cmd", ""), ("g8", 1, 1, "func", "")]))
-    return {"level": "model_checking", "native": True, "race_too": True, "rev_map_order": ("C05-g10b-i1", "C05-g7c", "C05-g9-", "C05-g10-i1-b1-m2", "C05-g8g-i2", "C05-g13-i1-b1-m2"), "stages": [lambda ctx, prev: jobs, maporder_stage("C05", o, tier, graphs=("g8f", "g8g"), per_job=True)] + iof + [stream_first, stream_again],
+    return {"level": "model_checking", "native": True, "race_too": True, "rev_map_order": ("C05-g4-i3-runto", "C05-g10b-i1", "C05-g7c", "C05-g9-", "C05-g10-i1-b1-m2", "C05-g8g-i2", "C05-g13-i1-b1-m2"), "stages": [lambda ctx, prev: jobs, maporder_stage("C05", o, tier, graphs=("g8f", "g8g"), per_job=True)] + iof + [stream_first, stream_again],
             "rule": "every Mazurkiewicz trace of each scenario with start/end/return events mutually dependent (every order not forced by happens-before); at the state where the main thread returns from Run: all started tasks ended, all reference outputs final, no temp dir / FIFO; no deadlock state; + a rename that fails with EXDEV (absolute destination on another device): stopping is fine, returning is not; every other map-iteration order forced for the parameter fan-out scenarios; single injected I/O error: the n-th file-system operation of the run fails with EIO, for every n (default schedule; thorough: + 1 delay) - stop, or return with everything in place; streaming producer with an ordinary second output: run, then run again in place - no FIFO / temp dir left when Run returns; memory-level pass: some scenarios again on the race-instrumented build, where map operations and accesses to mutable struct fields are scheduling points too",
             "assumptions": BASE_ASSUMPTIONS}
 
@@ -304,6 +309,9 @@ def plan_c06(tier, seed):
     jobs.append(with_delay_fallback(wf("C06", "g9", 1, 1, 1, oracles=o, tier=tier)))
     jobs.append(with_delay_fallback(wf("C06", "g2", 2, 1, 2, "cmd", oracles=o, tier=tier)))
     # skipped tasks (pre-existing outputs) hold no slots and must not release anybody else's
+    # a SKIPPED task takes no slot: with the only slot held by p's task for in1, p's task for in0 (output exists) must
+    # still hand its output on, so that q's zero-core task for it can meet p's running task (they rendezvous)
+    jobs.append(with_delay_fallback(wf("C06", "g3", 2, 1, 1, oracles=["nohang", "c06"], tier=tier, extra="barrier-skip", pre={"in0.txt.p": "p.out(in=in0.txt;)"}, id="C06-g3-i2-m1-skipped-task-takes-no-slot")))
     jobs.append(with_delay_fallback(wf("C06", "g2", 3, 1, 1, oracles=o, tier=tier, pre={"in0.txt.p": "p.out(in=in0.txt;)"}, id="C06-g2-i3-m1-pre0")))
     jobs.append(with_delay_fallback(wf("C06", "g2", 3, 1, 2, oracles=o, tier=tier, pre={"in1.txt.p": "p.out(in=in1.txt;)"}, id="C06-g2-i3-m2-pre1")))
     jobs.append(with_delay_fallback(wf("C06", "g2", 3, 2, 1, "cmd", oracles=o, tier=tier, pre={"in0.txt.p": "p.out(in=in0.txt;)", "in2.txt.p": "p.out(in=in2.txt;)"}, id="C06-g2-i3-m1-pre02-cmd")))
@@ -381,11 +389,14 @@ def plan_c07(tier, seed):
         # workflow's driver), next to a leaf that ends in the sink
         for g, cores in (("g2", [mx + 1]), ("g11", [1, mx + 1]), ("g11", [mx + 1, 1]), ("g10b", [1, 1, mx + 1]), ("g3", [1, mx + 1])):
             jobs.append(wf("C07", g, 1, 1, mx, oracles=["nohang", "c07-oversize"], tier=tier, cores=cores, events_dep=False, id=f"C07-oversize-{g}-m{mx}-c{''.join(map(str, cores))}"))
+    # the oversize process is rejected also when all its outputs already exist (its tasks would be skipped)
+    for g, mx, cores, pre in (("g2", 1, [2], {"in0.txt.p": "p.out(in=in0.txt;)"}), ("g3", 2, [1, 3], {"in0.txt.p.q": "q.out(in=p.out(in=in0.txt;);)"})):
+        jobs.append(wf("C07", g, 1, 1, mx, oracles=["nohang", "c07-oversize"], tier=tier, cores=cores, events_dep=False, pre=pre, id=f"C07-oversize-{g}-m{mx}-c{''.join(map(str, cores))}-outputs-exist"))
     # a workflow WITHOUT any slot (maxConcurrentTasks = 0): every process that asks for a core is oversize
     for g, cores in (("g2", [1]), ("g3", [1, 1]), ("g3", [0, 1]), ("g13", [1, 2])):
         jobs.append(wf("C07", g, 1, 1, 0, oracles=["nohang", "c07-oversize"], tier=tier, cores=cores, events_dep=False, id=f"C07-oversize-{g}-m0-c{''.join(map(str, cores))}"))
     return {"level": "model_checking", "rev_map_order": ("C07-g13-free-m2", "C07-tasks-free-m2-c12", "C07-g2-barrier-2items"), "stages": [lambda ctx, prev: jobs],
-            "rule": "all multisets of CoresPerTask over k ready tasks (+ tasks with CoresPerTask = 0 among them) x every interleaving of the token-by-token acquisition (DPOR closed): no deadlock state; barrier variants: k tasks with sum(cores) <= max rendezvous inside their bodies, so a library that serialises them deadlocks; oversize CoresPerTask (also in a workflow with maxConcurrentTasks = 0): exit != 0 and no task of that process starts, in every schedule; environment deviation: the output of a queued task is created by an outside actor at every possible moment -> still no deadlock state",
+            "rule": "all multisets of CoresPerTask over k ready tasks (+ tasks with CoresPerTask = 0 among them) x every interleaving of the token-by-token acquisition (DPOR closed): no deadlock state; barrier variants: k tasks with sum(cores) <= max rendezvous inside their bodies, so a library that serialises them deadlocks; oversize CoresPerTask (also in a workflow with maxConcurrentTasks = 0, also when the outputs of the oversize process already exist): exit != 0 and no task of that process starts, in every schedule; environment deviation: the output of a queued task is created by an outside actor at every possible moment -> still no deadlock state",
             "assumptions": BASE_ASSUMPTIONS}
 
 
